@@ -327,10 +327,16 @@ def structural(ctx, exe):
         typ = TYPES[i % len(TYPES)] if i < 8 * 20 else rng.choice(TYPES)
         while True:
             r, c = rng.randint(1, 4), rng.randint(1, 4)
+            if i % 5 == 2:
+                # 4..6 ports: union-find forests with two levels (build_connectivity_matrix) need them
+                r, c = rng.randint(1, 6), rng.randint(4, 6)
+                if not calcore.is_t(typ):
+                    r, c = c, r
             if dims_allowed(typ, r, c):
                 break
         merr = 1 if rng.random() < 0.15 else 0
-        adds, handle, npar = calcore.gen_struct_case(rng, typ, r, c, rng.randint(1, 12))
+        adds, handle, npar = calcore.gen_struct_case(rng, typ, r, c, rng.randint(1, 12) if max(r, c) <= 4 else rng.randint(1, 6),
+                                                     forest_prob=0.6 if max(r, c) >= 4 else 0.3)
         cases.append({"typ": typ, "r": r, "c": c, "merr": merr, "adds": adds, "handle": handle, "npar": npar})
     # model
     lines = []
@@ -419,6 +425,8 @@ def structural(ctx, exe):
             ctx.nontrivial.add(("struct", i))
     ctx.traces_validated += len(cases) - len(bad)
     ctx.extra["struct_cases"] = len(cases)
+    ctx.extra["struct_cases_with_two_level_forest"] = len([1 for cs in cases if cs["adds"] and cs["adds"][0].get("forest_depth", 0) >= 2])
+    ctx.extra["struct_cases_5_6_ports"] = len([1 for cs in cases if max(cs["r"], cs["c"]) >= 5])
     ctx.extra["struct_adds_accepted"] = naccept
     ctx.extra["struct_adds_refused"] = nreject
     ctx.extra["struct_adds_model_abort_not_run"] = nabort
@@ -437,12 +445,12 @@ def structural(ctx, exe):
 
 # =============================================================================== Coq obligations
 COQ_FILES = ["Gen/LayoutGen.v", "Cal/LayoutProofs.v", "Cal/TermsModel.v", "Cal/AddModel.v", "Cal/TermsSpec.v",
-             "Cal/TermsProofs.v", "Cal/CalAlgebra.v",
+             "Cal/TermsProofs.v", "Cal/ConnProofs.v", "Cal/CalAlgebra.v",
              # the numeric core as coded: models, symbolic layer, lemmas (every Lemma/Example = 1 obligation)
              "Cal/Sym.v", "Cal/ApplyModel.v", "Cal/SolveSimple.v", "Cal/CalQI.v",
              "Cal/ApplyProofs.v", "Cal/SolveProofs.v", "Cal/E12Proofs.v", "Cal/LeakProofs.v", "Cal/SolveUnique.v",
              "Cal/ApplyIdentity.v", "Cal/AssembleIdentity.v", "Cal/LinUnique.v", "Cal/ApplyRecovers.v",
-             "Cal/SolveRecovers.v", "Cal/EndToEnd.v",
+             "Cal/SolveRecovers.v", "Cal/EndToEnd.v", "Cal/AssembleList.v",
              "Properties_C01.v"]
 
 
